@@ -4,8 +4,9 @@
    on_ping, on_pong, on_test_request, on_test_response) and TunnelExitSocket.tunnel_data, transcribed
    function by function.  The AEAD (ipv8_rust_tunnels.SessionKeys.encrypt_str / decrypt_str) is a
    Section variable.  Payload (de)serialisation is the wire model of C02 (model/M02_wire.v).
-   Follows the code after the `fix:` commit "authentication failures of decrypt_str escape
-   decrypt_cell as RuntimeError".  Statistics (bytes_up / bytes_down / last_activity) are not
+   Follows the code after the `fix:` commit "a cell that fails authenticated decryption raises
+   RuntimeError out of the receive path" (decrypt_cell turns every failure of decrypt_str into a
+   CryptoException, i.e. a dropped cell).  Statistics (bytes_up / bytes_down / last_activity) are not
    modelled.  No proofs here. *)
 From Coq Require Import ZArith List Bool Lia.
 From IPV8V Require Import lib.PyErr lib.Bytes lib.BE model.M02_wire model.M03_recv.
